@@ -1,4 +1,5 @@
 #!/bin/bash
+export VERIF_EVIDENCE_DIR=/var/tmp/mbn-selftest-evidence   # never overwrite /verif/evidence from a broken tree
 # usage: revtest.sh <commit> <prop>...   temporarily reverts a repo commit in the working tree and runs checks
 c=$1; shift
 git -C /repo diff $c^ $c | git -C /repo apply -R || exit 3
